@@ -10,6 +10,8 @@ import (
 	"github.com/btcsuite/btcd/btcec"
 	"github.com/massnetorg/mass-core/txscript"
 	"github.com/massnetorg/mass-core/wire"
+	"github.com/massnetorg/mass-core/massutil"
+	"massnet.org/mass-wallet/masswallet"
 	"massnet.org/mass-wallet/masswallet/keystore"
 
 	"verifharness/core"
@@ -269,7 +271,40 @@ func c03Case(t *core.T, calls int) {
 		if t.R.Chance(30) {
 			tx.SetPayload(t.R.Bytes(t.R.Range(1, 120)))
 		}
-		desc := fmt.Sprintf("sign wallet %s inputs=%d classes=%v addrs=%d pendingParent=%v outputs=%d flag=%s lock=%d payload=%d", k.ID[:8], nIn, classes, len(addrs), pendingParent, nOut, flag, tx.LockTime, len(tx.Payload))
+		// some of the transactions are built by the wallet itself from the same inputs and lock time
+		// (its own sequences, outputs and change); when the builder declines, the hand-made one is used
+		walletBuilt := false
+		if t.R.Chance(30) {
+			var ins []*masswallet.TxIn
+			for _, in := range tx.TxIn {
+				ins = append(ins, &masswallet.TxIn{TxId: in.PreviousOutPoint.Hash.String(), Vout: in.PreviousOutPoint.Index})
+			}
+			amt, _ := massutil.NewAmountFromInt(total/2 + 1)
+			raw, _, cerr := wd.W.W.CreateRawTransaction(ins, map[string]massutil.Amount{sim.StdAddr(wd.StrangerPub()): amt}, tx.LockTime, "", nil)
+			if cerr == nil {
+				if wtx, derr := decodeTxHex(raw); derr == nil && len(wtx.TxIn) == len(tx.TxIn) {
+					same := true
+					for i := range wtx.TxIn {
+						if wtx.TxIn[i].PreviousOutPoint != tx.TxIn[i].PreviousOutPoint {
+							same = false
+						}
+					}
+					if same {
+						wd.W.W.ClearUsedUTXOMark(wtx)
+						tx = wtx
+						walletBuilt = true
+						nOut = len(tx.TxOut)
+						if strings.HasPrefix(flag, "SINGLE") && nOut < nIn {
+							flag = "ALL"
+						}
+						t.Count("transactions_built_by_the_wallet", 1)
+					}
+				}
+			} else {
+				t.Count("wallet_builder_declined", 1)
+			}
+		}
+		desc := fmt.Sprintf("sign wallet %s inputs=%d classes=%v addrs=%d pendingParent=%v outputs=%d flag=%s lock=%d payload=%d walletBuilt=%v", k.ID[:8], nIn, classes, len(addrs), pendingParent, nOut, flag, tx.LockTime, len(tx.Payload), walletBuilt)
 		wd.Logf("%s", desc)
 		fail := func(sig, msg string) {
 			w := wd.Witness()
